@@ -7,6 +7,7 @@
 #include <set>
 
 #include "mmio_map.h"
+#include <array>
 #include "sysinst.h"
 #include "vf.h"
 
@@ -222,10 +223,26 @@ vf::Result check(const Case& cs) {
             case DmaStart: {
                 // a bounded transfer inside DSP data memory, then the documented start value
                 uint16_t v = op.v;
-                uint16_t cfg[][2] = {{0x1C2, 0}, {0x1C6, 0}, {0x1C0, (uint16_t)(0x1000 + (v & 0xFF))}, {0x1C4, (uint16_t)(0x3000 + (op.off & 0xFF))},
+                std::vector<std::array<uint16_t, 2>> cfg = {{0x1C2, 0}, {0x1C6, 0}, {0x1C0, (uint16_t)(0x1000 + (v & 0xFF))}, {0x1C4, (uint16_t)(0x3000 + (op.off & 0xFF))},
                                      {0x1C8, (uint16_t)(v & 3)}, {0x1CA, (uint16_t)((v >> 2) & 3)}, {0x1CC, (uint16_t)((v >> 4) & 3)},
                                      {0x1CE, (uint16_t)((v >> 6) & 3)}, {0x1D0, (uint16_t)((v >> 8) & 3)}, {0x1D2, (uint16_t)((v >> 10) & 3)},
                                      {0x1D4, (uint16_t)((v >> 12) & 3)}, {0x1D6, 1}, {0x1D8, 2}, {0x1DA, (uint16_t)((v & 0x8000) ? 0x0400 : 0)}, {0x1DE, 0x40C0}};
+                const uint64_t hsel = vf::mix64(((uint64_t)op.off << 16) | op.v);
+                if (hsel & 1) {
+                    // external source through AHBM channel k, bursts allowed and the element count free: a transfer that ends
+                    // inside a burst leaves prefetched units behind in the bridge (its registers must still hold what is written)
+                    const bool dword = (v & 0x8000) != 0;
+                    const uint16_t k = (uint16_t)((hsel >> 1) % 3), burst = (uint16_t)((hsel >> 8) % 3), unit = dword ? 4 : 2;
+                    const uint16_t n = (uint16_t)(1 + (hsel >> 16) % 9);
+                    cfg = {{(uint16_t)(0x0E2 + 6 * k), (uint16_t)(((dword ? 2 : 1) << 4) | (burst << 1))},
+                           {(uint16_t)(0x0E4 + 6 * k), 0},
+                           {(uint16_t)(0x0E6 + 6 * k), (uint16_t)(1u << (m.dma_channel & 7))},
+                           {0x1C0, (uint16_t)(0x2000 + 8 * (v & 0xF8))}, {0x1C2, 0x1000}, {0x1C4, (uint16_t)(0x3000 + (op.off & 0xFE))}, {0x1C6, 0},
+                           {0x1C8, (uint16_t)(dword ? 2 * n : n)}, {0x1CA, 1}, {0x1CC, 1},
+                           {0x1CE, unit}, {0x1D0, (uint16_t)(dword ? 2 : 1)}, {0x1D2, unit}, {0x1D4, 1}, {0x1D6, unit}, {0x1D8, 1},
+                           {0x1DA, (uint16_t)(7 | (dword ? 0x0400 : 0))}, {0x1DE, 0x40C0}};
+                    vf::klass(std::string("DMA start from external memory (") + (burst ? "burst, " : "") + (burst && n % (burst == 1 ? 4 : 8) ? "ends inside a burst)" : "whole units)"));
+                }
                 trace += "dmastart(ch" + std::to_string(m.dma_channel & 7) + ") ";
                 for (auto& c : cfg) {
                     io.wr(c[0], c[1], op.path);
